@@ -77,10 +77,9 @@ def validate(ctx, runs, defs, prop_prefixes, keyfn=None):
     res = ctx.validate("Trace_Node", paths, env={"DEFS": defs}, timeout=1800)
     by_sid = {sc["conf"]["sid"]: (sc, tp) for (sc, tp, rc, err) in runs}
     for (_, rejects, walked, out) in res:
-        for m in re.finditer(r'<<\s*"REJECT",\s*(\d+),\s*(-?\d+),\s*"NODE",\s*(\{.*?\})\s*>>\s*(?=\n<<|\nModel|\n[A-Z]|\Z)', out, re.S):
-            sid = int(m.group(2))
+        for (_line, sid, _kind, rest) in vf.reject_tuples(out):
             sc, tp = by_sid.get(sid, (None, None))
-            pairs = _pair.findall(m.group(3))
+            pairs = _pair.findall(rest)
             trace = vf.read_ndjson(tp) if tp else []
             for clause, seq in pairs:
                 if not any(clause.startswith(pfx) for pfx in prop_prefixes):
